@@ -78,10 +78,16 @@ def level_of(prop, mod):
 
 
 def run_e1(rep, prop, mod, tier):
-    from vf.props.e1_targets import E1, E1_ASSUMPTIONS, E1_TRUSTED
+    from vf.props.e1_targets import E1, E1_ASSUMPTIONS, E1_TRUSTED, FRAMES
 
     if hasattr(mod, "e1"):
         return mod.e1(rep, tier)
+    if prop in FRAMES:
+        from contracts import frames_factors
+
+        n = frames_factors.run(rep, core.REPO, FRAMES[prop])
+        if n == 0:
+            rep.faults.append({"what": "frame analysis produced zero obligations"})
     if prop in E1:
         from contracts.common import CLASSES
         from vf.pyvc import run as e1run
